@@ -78,6 +78,27 @@ pub fn start_server_on(bind: &str, ca: &Path, cert: &Path, key: &Path) -> Result
     Ok(addr)
 }
 
+/// a server on a runtime of its own with ONE worker thread (what a one-core host gives it): whatever one topic's router does,
+/// it has to yield for the others to run at all
+pub fn start_server_single_worker(c: &Certs) -> Result<SocketAddr> {
+    let (ca, cert, key) = (c.server("ca.der"), c.server("localhost.der"), c.server("localhost.key.der"));
+    let (tx, rx) = std::sync::mpsc::channel();
+    std::thread::spawn(move || {
+        let rt = tokio::runtime::Builder::new_current_thread().enable_all().build().expect("runtime");
+        rt.block_on(async move {
+            let args = UserArgs::parse_from([
+                "selium-server", "--bind-addr", "127.0.0.1:0",
+                "--cert", cert.to_str().unwrap(), "--key", key.to_str().unwrap(), "--ca", ca.to_str().unwrap(),
+            ]);
+            match Server::try_from(args) {
+                Ok(server) => { let _ = tx.send(server.addr().map_err(|e| format!("{e}"))); let _ = server.listen().await; }
+                Err(e) => { let _ = tx.send(Err(format!("{e}"))); }
+            }
+        });
+    });
+    match rx.recv_timeout(std::time::Duration::from_secs(10)) { Ok(Ok(a)) => Ok(a), Ok(Err(e)) => anyhow::bail!("server: {e}"), Err(_) => anyhow::bail!("server did not start") }
+}
+
 pub fn start_server(c: &Certs) -> Result<SocketAddr> {
     start_server_with(&c.server("ca.der"), &c.server("localhost.der"), &c.server("localhost.key.der"))
 }
